@@ -45,6 +45,14 @@ def plan(tier, seed):
             for at in (0.05, 0.2, 0.3):
                 for pr in (0, 2, 4):
                     scs.append(dict(cell=ci, pat=pn, subpose=4, place=P(0.97, 0.03, 0.97), pair=pr, replace_all=0, atol=at, build_atol=0.02, decoy='nearmiss', fraction=1.0, noise=0))
+    # patterns written far from the origin (relative tolerances, cancellation): every pair, incl. the one with an atom displaced by 0.04 A
+    for ci in (0, 2, 6):
+        for pn in ['CN', 'CNO', 'CHHB']:
+            for pr in range(len(pairs(pn))):
+                scs.append(dict(cell=ci, pat=pn, subpose=4, place=P(0.97, 0.03, 0.97), pair=pr, replace_all=0, atol=0.05, fraction=1.0, noise=0, frame=[9000.0, 7000.0, -8000.0]))
+    # beyond the small bound: more than 2^15 atoms; a 31-atom chiral pattern next to its mirror image
+    scs += [dict(scale='large', variant=v, atol=0.05, fraction=1.0, replace_all=ra) for v in (0, 1) for ra in (0, 1)]
+    scs += [dict(scale='sheet', variant=v, height=0.5, atol=0.2, fraction=1.0, replace_all=ra) for v in (0, 1) for ra in (0, 1)]
     return dict(scenarios=scs, exhaustive=True, chunk=20,
                 menus=dict(cells=[c[0] for c in G.CELLS], patterns=PATS + ([] if q else ['CH4', 'CHFClBr']), pairs=PAIR_NAMES, replace_all=[False, True], fractions=FRACTIONS, copies=[1, 2, 3, 4],
                            draws='every random.sample subset, every tie-break / vector answer within the bound'),
@@ -55,7 +63,7 @@ def plan(tier, seed):
 
 def atom_rec(a, i):
     t = int(a.atom_types[i])
-    return (str(a.atom_type_elements[t]), str(a.atom_type_labels[t]), round(float(a.atom_type_masses[t]), 9), float(a.charges[i]), int(a.groups[i]))
+    return (str(a.atom_type_elements[t]), str(a.atom_type_labels[t]), round(float(a.atom_type_masses[t]), 9), round(float(a.charges[i]), 12), int(a.groups[i]))
 
 
 def check_execution(c, sc, answers, res, nm, rec, out, case):
@@ -170,6 +178,6 @@ def run(sc, ctx):
     out['outcomes']['replaced=%s pair=%s' % (sorted(x for x in ns if x is not None), c['pair'][:12])] = 1
     if any(ns) and c['pair'] != 'identical':
         out['nontrivial'] = 1
-    if sc.get('ncopies') == 3 and sc['fraction'] == 0.5 and sc['pat'] == 'CNO' and sc['pair'] == 4 and sc['cell'] == 2:
+    if sc.get('ncopies') == 3 and sc['fraction'] == 0.5 and sc.get('pat') == 'CNO' and sc['pair'] == 4 and sc.get('cell') == 2:
         out['samples'] = [dict(case=case, replaced=sorted(x for x in ns if x is not None))]
     return out
